@@ -148,9 +148,25 @@ def run(tier, seed, replay):
     rsp["cfg"] = rcfg
     rsp["what"] = ["runtime-params"]
     rh = [{"op": "param", "name": p} for p in rcfg["parameters"]] + [{"op": "param", "name": p} for p in list(rcfg["parameters"])[:6]] + [{"op": "get", "name": "holder"}]
+    # registered functions: a user registration of a built-in name replaces the built-in; a later file replaces an earlier registration
+    fcfg1 = {"meta": {"imports": {"al": "gv.test/fix/alpha"}, "functions": {"env": "al.Fn", "envInt": "al.GetEnv", "todo": "al.Lookup", "norm": "al.Fn"}},
+             "parameters": {"e": "%env(\"abc\")%", "i": "%envInt(\"GV_INT\")%", "t": "%todo(\"m\")%", "n": "%norm(\"x\", 2)%", "mix": "a %env(\"b\")% c"}}
+    fsp1 = common.mk_spec(0, [fcfg1], keep_out=True)
+    fsp1["cfg"] = fcfg1
+    fsp1["what"] = ["runtime-functions"]
+    fcfg2a = {"meta": {"imports": {"al": "gv.test/fix/alpha"}, "functions": {"norm": "al.Fn", "other": "al.GetEnv"}}, "parameters": {"n": "%norm(\"x\")%", "o": "%other(\"y\")%"}}
+    fcfg2b = {"meta": {"functions": {"norm": "al.Lookup"}}}
+    fsp2 = common.mk_spec(0, [fcfg2a, fcfg2b], keep_out=True)
+    fsp2["cfg"] = dict(fcfg2a)
+    fsp2["what"] = ["runtime-functions-two-files"]
+    fh1 = [{"op": "param", "name": p} for p in fcfg1["parameters"]]
+    fh2 = [{"op": "param", "name": p} for p in fcfg2a["parameters"]]
     rs2, hs2, _ = rtcommon.gen_cases(seed, "c03rt", 15 if tier == "quick" else 200, weights={"todo": 0.0}, hist_len=0)
+    rs2 = [fsp1, fsp2] + rs2
+    hs2 = [fh1, fh2] + hs2
     for k, sp in enumerate(rs2):
-        hs2[k] = [{"op": "param", "name": p} for p in sp["cfg"]["parameters"]]
+        if k >= 2:
+            hs2[k] = [{"op": "param", "name": p} for p in sp["cfg"]["parameters"]]
     robs, rl, ml, racc = rtcommon.run_histories(out, tooldir, env, [rsp] + rs2, [rh] + hs2, "C03 GetParam at run time", "C03")
     dist["runtime_getparam"] = sum(len(rl[k]) for k in racc)
     # independent oracle for the escaping round trip at run time: a string whose every `%` is doubled evaluates to the string with
